@@ -1,16 +1,16 @@
-\* (i) Bidirectional - exhaustive: safety + liveness (weak fairness on the copiers and main)
-\* bounds: each endpoint sends at most MaxSend payload units; every order of
-\* send/half-close/close/error on both endpoints; all four CloseWrite-support combinations
+\* (i) Bidirectional under tunnel.Tunnel - THE CODE AS FOUND before patch C12-4: nothing ever signals activityChan, so
+\* the "idle" timer of monitorTimeout is an absolute lifetime.  THIS RUN MUST FAIL with "Invariant BMonitorOnlyIdle is
+\* violated": tick, data moves, tick, the monitor closes both conns under a live direction.
 CONSTANTS
   MaxSend = 1
   EofWithData = TRUE
   ShapesA <- LocalShapes
-  ShapesB <- AllShapes
+  ShapesB <- TwoShapes
   DevDeadlineAt = "none"
   DevDeadlineHits = {"read"}
-  Monitor = FALSE
+  Monitor = TRUE
   IdleMax = 2
-  DevMonNoFeed = FALSE
+  DevMonNoFeed = TRUE
   DevCloseWriterFallback = FALSE
   Emit = FALSE
   Classes = {1}
@@ -33,7 +33,7 @@ CONSTANTS
   DevQueueRefs = FALSE
   DevSockDeadline = FALSE
   DevDropOnClose = FALSE
-SPECIFICATION BSpec
-INVARIANTS BTypeOK BPipe BComplete BReverseKeepsFlowing BNoSpuriousEnd BNoSpuriousWriteEnd BNoDeadline BMonitorOnlyIdle
-PROPERTIES BMonotone BTermination BReverseDelivered
+INIT BInit
+NEXT BNext
+INVARIANTS BTypeOK BPipe BComplete BMonitorOnlyIdle
 CHECK_DEADLOCK FALSE
